@@ -28,6 +28,8 @@ CONSTANTS
   TrampFlushed = TRUE
   Regen = TRUE
   SavedFrom = "install"
+  RestoreMayFail = FALSE
+  LockByHand = FALSE
   ForeignReuse = FALSE
   AllocAt = "hint"
   MaxLives = 2
